@@ -41,6 +41,9 @@ def build_template(ctx):
     os.makedirs(os.path.join(root, "plt_runs"))
     shutil.copytree(os.path.join(root, "plt00010"), os.path.join(root, "plt_runs", "plt00100"))
     shutil.copytree(os.path.join(root, "plt00020"), os.path.join(root, "plt_runs", "plt00200"))
+    # a plotfile of the same name in another run directory
+    os.makedirs(os.path.join(root, "plt_runs2"))
+    shutil.copytree(os.path.join(root, "plt00020"), os.path.join(root, "plt_runs2", "plt00100"))
     with open(os.path.join(root, "rec.py"), "w") as f:
         f.write(tools.USER_RECIPE)
     # the plotfile of the same step beside the checkpoint (holds the species names a conversion can take from it)
@@ -54,7 +57,7 @@ def build_template(ctx):
 
 
 INPUTS = ["plt00010", "plt00020", "plt00040", "plt2d00030", "chk00005", "restart7", "chk_runs/sim00100", "chk00007", "plt00007", "plt00050_ck",
-          "plt_runs/plt00100", "plt_runs/plt00200"]
+          "plt_runs/plt00100", "plt_runs/plt00200", "plt_runs2/plt00100"]
 
 
 def form_path(root, name, form):
@@ -117,6 +120,12 @@ def invocations():
                 "plt_runs/plt00100", ["explicit-results"]))
     inv.append(("combine-intoresults", lambda r, f, o: tools.combine(P(r, "plt_runs/plt00100", f), P(r, "plt_runs/plt00200", f), O(r, o, "out_cmb")),
                 "plt_runs/plt00100", ["explicit-results"]))
+    def same_name(r, f, o):
+        # two plotfiles of the same name from two run directories, combined from inside one of them, no output named
+        from ..common import chdir
+        with chdir(os.path.join(r, "plt_runs")):
+            tools.combine("plt00100" + ("/" if "slash" in f else ""), os.path.join(r, "plt_runs2", "plt00100"), None)
+    inv.append(("combine-samename", same_name, "plt_runs/plt00100", ["explicit-results"]))
     inv.append(("marinate", lambda r, f, o: tools.marinate(P(r, "plt00010", f)), "plt00010", ["default"]))
     inv.append(("taste", lambda r, f, o: tools.taste(P(r, "plt00010", f), boxes_coordinates=True), "plt00010", ["none"]))
     inv.append(("pestle", lambda r, f, o: tools.pestle(P(r, "plt00010", f), "density", None, True), "plt00010", ["none"]))
@@ -142,17 +151,49 @@ def _truncate(root, d, prefix, cut, level="Level_0", which=0):
 def _cut_at_fab(root, d, prefix, level="Level_0"):
     """cut a binary file holding several FABs exactly where its last FAB begins (an interrupted copy that stopped between
     two FABs): the file is a valid sequence of FABs, one fewer than the level header announces"""
+    cands = []
     for level in sorted(x for x in os.listdir(os.path.join(root, d)) if x.startswith("Level_")):
         lv = os.path.join(root, d, level)
         for name in sorted(f for f in os.listdir(lv) if f.startswith(prefix)):
             fn = os.path.join(lv, name)
             data = open(fn, "rb").read()
-            k = data.rfind(b"FAB ((")
-            if k > 0:
-                with open(fn, "wb") as f:
-                    f.write(data[:k])
-                return
-    raise RuntimeError("no binary file with two FABs")
+            n = data.count(b"FAB ((")
+            if n >= 2:
+                cands.append((n != 2, fn, data))       # a file of exactly two FABs first: one offset is left, which numpy would broadcast
+    if not cands:
+        raise RuntimeError("no binary file with two FABs")
+    _, fn, data = sorted(cands, key=lambda c: (c[0], c[1]))[0]
+    with open(fn, "wb") as f:
+        f.write(data[:data.rfind(b"FAB ((")])
+
+
+_FSIZE = {}
+
+
+def _probe_colander_sizes(r):
+    """(outside the audited run) the size of the largest binary file the strain writes, from a run in a scratch copy"""
+    import glob, tempfile
+    d = tempfile.mkdtemp(prefix="c13probe_")
+    try:
+        shutil.copytree(os.path.join(r, "plt00010"), os.path.join(d, "plt00010"))
+        from ..common import chdir
+        with chdir(d):
+            tools.colander("plt00010", "out", ["temp", "density"])
+        _FSIZE[r] = max(os.path.getsize(p) for p in glob.glob(os.path.join(d, "out", "Level_*", "Cell_D*")))
+    finally:
+        shutil.rmtree(d, ignore_errors=True)
+
+
+def _colander_file_size_limit(r):
+    """colander under a file-size limit (quota, `ulimit -f`) that the last write of its largest binary file crosses: the
+    operating system refuses the write (EFBIG) or performs it in part - either way the tool must not return normally"""
+    import resource
+    old = resource.getrlimit(resource.RLIMIT_FSIZE)
+    resource.setrlimit(resource.RLIMIT_FSIZE, (_FSIZE[r] - 8, old[1]))
+    try:
+        tools.colander("plt00010", "out_col", ["temp", "density"])
+    finally:
+        resource.setrlimit(resource.RLIMIT_FSIZE, old)
 
 
 # (name, preparation outside the audited run, invocation)
@@ -198,6 +239,7 @@ FAILING = [
     ("combine-cut-between-fabs-second", lambda r: _cut_at_fab(r, "plt00020", "Cell_D"), lambda r: tools.combine("plt00010", "plt00020", "out_cmb")),
     ("colander-cut-between-fabs", lambda r: _cut_at_fab(r, "plt00010", "Cell_D"), lambda r: tools.colander("plt00010", "out_col", ["temp", "density"])),
     ("chef-cut-between-fabs", lambda r: _cut_at_fab(r, "plt00010", "Cell_D"), lambda r: tools.chef("plt00010", "rec.py", "out_ck")),
+    ("colander-file-size-limit", _probe_colander_sizes, _colander_file_size_limit),
     ("combine-bybox-truncated", lambda r: _truncate(r, "plt00040", "Cell_D", 16), lambda r: tools.combine("plt00010", "plt00040", "out_cmb4")),
     ("chef-truncated", lambda r: _truncate(r, "plt00010", "Cell_D", 16), lambda r: tools.chef("plt00010", "rec.py", "out_ck")),
     ("chk2plt-truncated", lambda r: _truncate(r, "chk00005", "state_D", 16), lambda r: tools.chk2plt("chk00005", "out_plt")),
